@@ -62,7 +62,7 @@ class NmtBase:
                 new_state = COMMAND_TO_STATE[cmd]
                 if new_state != self._state:
                     logger.info("New NMT state %s, old state %s",
-                                NMT_STATES[new_state], NMT_STATES[self._state])
+                                NMT_STATES[new_state], self.state)
                 self._state = new_state
 
     def send_command(self, code: int):
@@ -74,7 +74,7 @@ class NmtBase:
         if code in COMMAND_TO_STATE:
             new_state = COMMAND_TO_STATE[code]
             logger.info("Changing NMT state on node %d from %s to %s",
-                        self.id, NMT_STATES[self._state], NMT_STATES[new_state])
+                        self.id, self.state, NMT_STATES[new_state])
             self._state = new_state
 
     @property
